@@ -19,3 +19,6 @@ package core
 //@   ensures result1 ==> result0 != nil && result0 == fetched(hash) && result0.hash == hash
 //@   ensures !result1 ==> result0 == nil
 //@   modifies alloc
+
+// Two-state facts used in the contracts of unknown code: the configured membership does not change.
+//@ pred cfgstable() = forall cfg *RuntimeConfig :: len(cfg.replicas) == old(len(cfg.replicas))
